@@ -59,6 +59,10 @@ def compare_run(check, beh, real, key_prefix):
                              real_hist=real["hist"]))
         return False
     ok = True
+    # the total-time notice is the Timer's, and the Timer is there only when the caller asked for it (time=True)
+    if not real.get("time_flag", True) and "Total time elapsed" in real.get("stdout", ""):
+        check.violation(key_prefix + ":timer-not-requested", dict(cfg=cfg, stdout=real["stdout"][-300:]))
+        ok = False
     for f in ("stop", "pver", "sched"):
         if fin[f] != real[f]:
             check.violation("%s:final-%s" % (key_prefix, f), dict(cfg=cfg, expected=fin[f], got=real[f]))
